@@ -64,6 +64,12 @@ func (r Rounder) ShouldAddOne(result *BigInt, neg bool, half int) bool {
 // Round sets d to rounded x.
 func (r Rounder) Round(c *Context, d, x *Decimal, disableIfPrecisionZero bool) Condition {
 	d.Set(x)
+	if x.Form != Finite {
+		// Infinities and NaNs have no digits to round and no exponent to range
+		// check; their Coeff and Exponent may hold leftovers (for example of an
+		// overflowed result) that must not be reported as conditions again.
+		return 0
+	}
 	nd := x.NumDigits()
 	xs := x.Sign()
 	var res Condition
